@@ -109,6 +109,7 @@ class SimHTTP(object):
         self.gen = 0
         self.fail_code = None
         self.plan = None
+        self.transparent_layers = None       # set of upstream layer names answered with a fully transparent image
         self.fail_layers = None  # None = every upstream request fails while fail_code is set, else a set of layer names
         self.ocean = False       # False | True | (r, g, b): colour of the constant-colour 'ocean' tiles
 
@@ -146,7 +147,10 @@ class SimHTTP(object):
             raise HTTPClientError('HTTP Error "%s": %d' % (url, code), response_code=code)
         if sched is not None:
             sched.check_alive()
-        img = Image.frombytes('RGB', entry['size'], U.render(entry['bbox'], entry['size'], gen, ocean=self.ocean))
+        if self.transparent_layers and q.get('layers') in self.transparent_layers:
+            img = Image.new('RGBA', entry['size'], (0, 0, 0, 0))        # an overlay layer with nothing to show here
+        else:
+            img = Image.frombytes('RGB', entry['size'], U.render(entry['bbox'], entry['size'], gen, ocean=self.ocean))
         buf = BytesIO()
         img.save(buf, 'PNG')
         entry['ok'] = True
